@@ -240,7 +240,7 @@ pub fn replay(args: &Args) {
     let scheds: Vec<(i64, usize, usize, Vec<(String, i64)>)> =
         serde_json::from_str(&std::fs::read_to_string(args.str("sched", "sched.json")).unwrap()).unwrap();
     let mut w = TraceWriter::create(&args.str("out", "c15s.ndjson"));
-    let (mut followed, mut unrealised, mut hangs) = (0, 0, 0);
+    let (mut followed, mut unrealised, mut hangs, mut inapplicable) = (0, 0, 0, 0);
     for (run, (days, workers, thr, sched)) in scheds.into_iter().enumerate() {
         let start = date_of_dn(r.range(dn_of(ymd(1700, 1, 1)), dn_of(ymd(2300, 1, 1))));
         let end = start + chrono::Duration::days(days - 1);
@@ -253,6 +253,14 @@ pub fn replay(args: &Args) {
         let starts: Vec<i64> = dr.partition(workers).iter().map(|b| b.start_date().num_days_from_ce() as i64).collect();
         // the schedule's logged actions, without the final "ret" (the public call's return)
         let want: Vec<(String, i64)> = sched.iter().filter(|(n, _)| n != "ret").cloned().collect();
+        // the model's schedules assume the block structure of the present partition(); where the code's partition of this
+        // range has another number of blocks the schedule does not apply (that is C14's business, not a C15 violation)
+        let want_workers = want.iter().filter(|(n, _)| n == "spawn_worker").count();
+        let par = want.iter().any(|(n, _)| n == "partition");
+        if par && want_workers != starts.len() {
+            inapplicable += 1;
+            continue;
+        }
         let ctl = Arc::new(Controller {
             sched: want.clone(),
             pos: Mutex::new(0),
@@ -270,8 +278,14 @@ pub fn replay(args: &Args) {
         let evs: Vec<_> = ctl.events.lock().unwrap().clone();
         let got: Vec<(String, i64)> = evs.iter().map(|(_, n, a, _)| ctl.label(n, *a)).collect();
         let ok = got == want && !ctl.stuck.load(std::sync::atomic::Ordering::SeqCst);
+        // a schedule that assumes the other sequential / parallel decision does not apply either (the decision rule is
+        // not part of C15; the trace specification notes it)
+        let got_par = evs.iter().any(|(_, n, _, _)| *n == "decide_par");
+        let want_par = want.iter().any(|(n, _)| n == "spawn_coll");
         if ok {
             followed += 1;
+        } else if got_par != want_par {
+            inapplicable += 1;
         } else {
             unrealised += 1;
         }
@@ -302,7 +316,7 @@ pub fn replay(args: &Args) {
     }
     verif_hooks::set_parallelism(0);
     let n = w.finish();
-    println!("{}", json!({"events": n, "followed": followed, "unrealised": unrealised, "hangs": hangs}));
+    println!("{}", json!({"events": n, "followed": followed, "unrealised": unrealised, "hangs": hangs, "inapplicable": inapplicable}));
     if hangs > 0 {
         std::process::exit(0);
     }
